@@ -65,6 +65,40 @@ CHECKS["C17"] = dict(
     note="Readers that violate Read's contract are out of scope; codec output is compared with the reference encoder in mc_core::refcodec.",
 )
 
+IOVEC_COMMON = "Each history is executed from scratch on the real OwningIovec next to a Vec<Cell> reference model (every prefix of every history is itself judged): every read-side view, total_size/len/is_empty and every consuming return value is compared with the model, every exposed slice must lie in a live arena chunk (registry + quarantine hook H1) or a caller buffer, then all placeholders are backfilled, everything is drained and dropped and the live chunk/byte counters must be back to their initial values."
+CHECKS["C03"] = dict(
+    engine="iovec_mc",
+    category="model_checking",
+    design="DESIGN.md section 4, C03",
+    technique="stateless model checking: exhaustive DFS over all operation histories (27-op alphabet, depth-bounded, fresh + non-initial starts) of the real OwningIovec against a reference pipe model",
+    text="All histories over a 27-op producer/consumer alphabet (size-adaptive, copied, borrowed, anchored pushes around the 64/256-byte thresholds, extend, placeholder register/backfill, clear, take, arena flush/swap/exhaustion, consume/advance/pop/Read with partial amounts) to depth 5 (quick) / 6 (thorough), a 12-op reduced alphabet to depth 6 / 8, three construction paths and five non-initial seed states. " + IOVEC_COMMON,
+    note="Histories longer than the depth bound from states no seed reaches, payload sizes other than the threshold set and arena chunks beyond the first sizes of the growth sequence are not covered.",
+)
+CHECKS["C04"] = dict(
+    engine="iovec_mc",
+    category="model_checking",
+    design="DESIGN.md section 4, C04",
+    technique="stateless model checking: exhaustive DFS over all register/backfill/push/consume histories (15-op alphabet, depth 7-8) of the real OwningIovec against a reference model with marked holes",
+    text="All histories over a 15-op backpatch alphabet (placeholders of size 0/1/2 with up to 5 in flight, backfill of the 1st/2nd/3rd/last pending in any order, merging and non-merging pushes, cache flush, slice and byte consumption) to depth 7 (quick) / 8 (thorough), plus seeds. The visible length may never reach the earliest hole, iovs/flatten/stable_consumer succeed exactly when no hole is pending, and after all backfills everything is consumable with the backfilled values. " + IOVEC_COMMON,
+    note="More than 5 placeholders in flight and placeholder sizes above 2 are not enumerated.",
+)
+CHECKS["C05"] = dict(
+    engine="iovec_mc",
+    category="model_checking",
+    design="DESIGN.md section 4, C05",
+    technique="stateless model checking: exhaustive DFS over histories with clones, drops, arena swaps and held AnchoredSlices; every exposed address range checked against a live-chunk registry with quarantine",
+    text="All histories over a 26-op alphabet (38 ops at one depth less) that adds clone, drop of either side, arena take/swap/flush/exhaustion, and AnchoredSlices held un-pushed across steps (split, skip, drop_suffix, clone, push, drop) to depth 5 (quick) / 6 (thorough), plus seeds. After every step every exposed slice and every held AnchoredSlice must lie inside a chunk that is in the live registry (freed chunks are quarantined and poisoned, so the test is exact), contents must match the model, and pure copies must be pairwise disjoint. " + IOVEC_COMMON,
+    note="Liveness means membership in the chunk registry (hook H1), not compiler provenance; caller buffers are static in the harness.",
+)
+CHECKS["C20"] = dict(
+    engine="iovec_mc",
+    category="model_checking",
+    design="DESIGN.md section 4, C20",
+    technique="stateless model checking: all prefixes x {clone, take} x all two-sided suffixes on the real OwningIovec, one reference model per side",
+    text="Every prefix over a 9-op alphabet to depth 3, then clone (when no placeholder is pending) or take, then every suffix over 18 ops addressed to either side (pushes that merge, register/backfill, consume, clear, drop, flush) to depth 3 (quick) / 5 (thorough). Each side has its own reference model, so any operation on one side that changes the other is a mismatch; after take the source must be empty and usable and the taken value must complete all outstanding backfills. " + IOVEC_COMMON,
+    note="More than two live copies and clones taken while placeholders are pending (excluded by the statement) are not explored.",
+)
+
 ALL = ["C%02d" % i for i in range(1, 21)]
 
 NOT_YET = "check not built yet (work in progress; see DESIGN.md section 4 for the planned bounded-exhaustive formulation)"
